@@ -19,6 +19,8 @@ def concretize(p):
     if p["dt"] == "enum" and p["tail"] == "ret":
         # a quick return replaces the whole body: member-level requirements (here: field names for a tuple variant hinted `as {}`) do not apply
         return head + " enum S { A, #[type_hint(as {})] B(V) }"
+    if p.get("gh"):
+        head += " #[ghosts(gq: {mkg()})]"
     return head + (" struct S { a: V }" if p["dt"] == "struct" else " enum S { A, #[literal(1)] B }" if p["tail"] == "dflt" else " enum S { A }")
 
 
